@@ -41,8 +41,8 @@ def _rand_epoch(rng):
 
 
 def generate(ctx, rng):
-    n_rand = 2500 if ctx.tier == "quick" else 1600000
-    n_wire = 300 if ctx.tier == "quick" else 40000
+    n_rand = 2500 if ctx.tier == "quick" else 4000000
+    n_wire = 300 if ctx.tier == "quick" else 100000
     # exhaustive lengths x boundary ids
     i = 0
     for L in range(256):
@@ -92,6 +92,16 @@ def generate(ctx, rng):
         yield ("wire-close", j), {"kind": "wire", "frame": rng.randbytes(rng.randint(0, 40)), "id": rng.choice(BOUNDARY_IDS), "epoch": _rand_epoch(rng),
                                   "drop_first": 0, "responses": [rng.randbytes(rng.randint(0, 60)) for _ in range(rng.choice([1, 1, 2]))],
                                   "then": rng.choice(["fin", "rst"])}
+    # frames and responses that look like something else: they begin like a V2 packet, a V3 packet, a frame, an XML document,
+    # or are themselves a complete encoded packet
+    looks = [b"\x5a\x5a", b"\x5a\x5a\x01\x11", b"\x83\x70", b"\xaa", b"<", b"ERROR", b"\x00", b"\x5a", b"\x5a\x5a\x5a\x5a"]
+    for j, head in enumerate(looks):
+        for tail in (0, 1, 38, 100):
+            body = head + rng.randbytes(tail)
+            yield ("wire-looks", j, tail), {"kind": "wire", "frame": body, "id": rng.choice(BOUNDARY_IDS), "epoch": _rand_epoch(rng), "drop_first": j % 2,
+                                            "responses": [rng.choice(looks) + rng.randbytes(tail), body]}
+    pk = v2.build(rng.randbytes(20), 77)
+    yield ("wire-looks", "packet"), {"kind": "wire", "frame": pk, "id": 5, "epoch": _rand_epoch(rng), "drop_first": 0, "responses": [pk, pk[:40]]}
     for j in range(n_wire):
         L = j % 256 if j < 256 else rng.randint(0, 255)
         nresp = rng.choice([1, 1, 2, 3])
